@@ -77,6 +77,43 @@ SafiOf(r) == IF Vpn(r) THEN 128 ELSE IF Labeled(r) THEN 4 ELSE 1
 \* the identity of a route: everything but the label stack
 SameKey(a, b) == a.fam = b.fam /\ a.pid = b.pid /\ a.pfx = b.pfx /\ a.rd = b.rd
 
+\* ---- SR Policy tunnel encapsulation (RFC 9012 Tunnel Encapsulation attribute, RFC 9830 SR Policy sub-TLVs) ---------
+\* A second table with a reference encoding: the attribute as a peer may send it, including what the text grammar
+\* cannot express (the SRv6 Binding SID flags and its optional "endpoint behavior and SID structure").
+TDom == [ pref |-> {"none", "p100"},
+          \* rows are in the normal form of ExaBGP's own encoder, so that "re-encoding gives the same bytes" applies: a segment
+          \* list always carries its weight (ExaBGP adds the default weight 1 when it is absent), and the MPLS Binding SID is
+          \* left out (ExaBGP re-encodes its flags octet and bottom-of-stack bit its own way: observed, not judged)
+          bsid |-> {"none", "srv6", "srv6si", "srv6beh", "srv6sibeh"},
+          weight |-> {"w1"},
+          segs |-> {"a", "aa", "b", "bbeh", "ab", "abbeh"} ]
+TBase == [pref |-> "p100", bsid |-> "srv6", weight |-> "w1", segs |-> "aa"]
+TFields == DOMAIN TBase
+SubTlv(t, v) == IF t < 128 THEN <<t, Len(v)>> \o v ELSE <<t>> \o U16(Len(v)) \o v      \* RFC 9012 3: two length octets from type 128 on
+Label4(l) == <<l \div 4096, (l \div 16) % 256, (l % 16) * 16, 0>>                       \* label, TC 0, S 0, TTL 0
+Label4S(l) == <<l \div 4096, (l \div 16) % 256, (l % 16) * 16 + 1, 0>>                  \* ... bottom of stack: the last label of a list
+Sid6(last) == <<252, 0, 0, 0, 1, 0, 0, 0, 0, 0, 0, 0, 0, 0, 0, last>>
+Behaviour == U16(65) \o <<0, 0>> \o <<32, 0, 16, 0>>                                     \* endpoint behaviour, reserved, LB / LN / Fun / Arg lengths
+TPref(t) == IF t.pref = "none" THEN <<>> ELSE SubTlv(12, <<0, 0>> \o U32(100))
+TBsid(t) ==
+    CASE t.bsid = "mpls" -> SubTlv(13, <<0, 0>> \o Label4(24000))
+      [] t.bsid \in {"srv6", "srv6si", "srv6beh", "srv6sibeh"} ->
+            LET si == IF t.bsid \in {"srv6si", "srv6sibeh"} THEN 192 ELSE 0               \* S-Flag 0x80, I-Flag 0x40
+                beh == t.bsid \in {"srv6beh", "srv6sibeh"}                                 \* B-Flag 0x20: the structure follows
+            IN SubTlv(20, <<si + (IF beh THEN 32 ELSE 0), 0>> \o Sid6(1) \o (IF beh THEN Behaviour ELSE <<>>))
+      [] OTHER -> <<>>
+SegA(l) == SubTlv(1, <<0, 0>> \o Label4(l))
+SegAS(l) == SubTlv(1, <<0, 0>> \o Label4S(l))
+SegB(beh) == SubTlv(13, <<IF beh THEN 16 ELSE 0, 0>> \o Sid6(9) \o (IF beh THEN Behaviour ELSE <<>>))   \* segment B-Flag 0x10
+TSegs(t) == CASE t.segs = "a" -> SegAS(16001) [] t.segs = "aa" -> SegA(16001) \o SegAS(16002)
+              [] t.segs = "b" -> SegB(FALSE) [] t.segs = "bbeh" -> SegB(TRUE)
+              \* (normal form of ExaBGP's encoder: the last MPLS segment of a list carries the bottom-of-stack bit)
+              [] t.segs = "ab" -> SegAS(16001) \o SegB(FALSE) [] OTHER -> SegAS(16001) \o SegB(TRUE)
+TSegList(t) == SubTlv(128, <<0>> \o (IF t.weight = "none" THEN <<>> ELSE SubTlv(9, <<0, 0>> \o U32(1))) \o TSegs(t))
+TunnelRef(t) == LET subs == TPref(t) \o TBsid(t) \o TSegList(t)
+                    tlv == U16(15) \o U16(Len(subs)) \o subs                               \* tunnel type 15 = SR Policy
+                IN <<192, 23, Len(tlv)>> \o tlv                                            \* optional transitive, code 23
+
 \* ---- judgement ------------------------------------------------------------------------------
 Chk(name, ok) == IF ok THEN {} ELSE {name}
 
